@@ -34,6 +34,9 @@ def setup_worker(ctx):
 
 
 def gen_case(rng, idx, tier):
+    if rng.random() < 0.15:
+        from rv import bcast
+        return bcast.gen(rng, tier)
     cones = ['L', 'LQ', 'LQX', 'LQX', 'X', 'Q'][int(rng.integers(6))]
     return D.gen(rng, tier, cones=cones)
 
@@ -68,6 +71,9 @@ def feats(spec, sname):
 
 
 def run_case(spec, ctx, want_B=False):
+    if spec.get('kind') == 'bcast':
+        from rv import bcast
+        return bcast.run(spec, ctx)
     rng = np.random.default_rng(spec['spell'])
     sname = pick_solver(spec, rng)
     f = feats(spec, sname)
